@@ -739,8 +739,8 @@ pub fn build(quick: bool) -> Check {
             label: "read-sizes",
             lens: super::soak::lens(quick),
             mixes: super::soak::MIXES.to_vec(),
-            opts: vec![("reads of 1 byte", reads(1)), ("reads of at most 5 bytes", reads(5)), ("reads of at most 61 bytes", reads(61)), ("reads of at most 4093 bytes", reads(4093)), ("whole reads", reads(usize::MAX)), ("lock-step client, every 97th command split behind its header", RunOpts { lockstep: true, cut_every: 97, ..RunOpts::default() }), ("lock-step client, every 5th command split behind its header", RunOpts { lockstep: true, cut_every: 5, ..RunOpts::default() })],
-            big: vec![(70_001, super::soak::Mix::Even, 3), (66_000, super::soak::Mix::Text, 2), (70_001, super::soak::Mix::Text, 5), (70_001, super::soak::Mix::Even, 5), (66_000, super::soak::Mix::Text, 6)],
+            opts: vec![("reads of 1 byte", reads(1)), ("reads of at most 5 bytes", reads(5)), ("reads of at most 61 bytes", reads(61)), ("reads of at most 4093 bytes", reads(4093)), ("whole reads", reads(usize::MAX)), ("lock-step client, every 97th command split behind its header", RunOpts { lockstep: true, cut_every: 97, ..RunOpts::default() }), ("lock-step client, every 5th command split behind its header", RunOpts { lockstep: true, cut_every: 5, ..RunOpts::default() }), ("lock-step client, one early long command split behind its header, everything else whole", RunOpts { lockstep: true, cut_once: true, ..RunOpts::default() })],
+            big: vec![(70_001, super::soak::Mix::Even, 3), (66_000, super::soak::Mix::Text, 2), (70_001, super::soak::Mix::Text, 5), (70_001, super::soak::Mix::Even, 5), (66_000, super::soak::Mix::Text, 6), (70_001, super::soak::Mix::Text, 7), (66_100, super::soak::Mix::Text, 7), (70_001, super::soak::Mix::Even, 7)],
         }));
     }
     for (d, c) in if quick { vec![(5, 1), (3, 2)] } else { vec![(6, 1), (4, 2), (3, 3)] } {
